@@ -6,7 +6,6 @@ NA = {
  "C03": "same as C02: key_history runs on StorageManager/AsyncInMemoryDatabase; the marker arithmetic shared by server and verifier is decided under C08",
  "C04": "append-only proof walk and auditor both run on the async storage layer (Azks::get_append_only_proof, audit_verify rebuilding trees on the DashMap-backed in-memory database)",
  "C09": "audit_verify rebuilds trees through async Azks insertion on the in-memory database; unreachable. The partition-drop behaviour it depends on is a kernel fact that this family could state, but the auditor's verdict itself cannot be decided",
- "C10": "failed-publish atomicity is entirely StorageManager/Transaction/TimedCache behaviour under storage faults (async, DashMap, tokio locks): no encodable kernel",
  "C12": "quantifies over schedules of concurrent publishes; Kani does not model concurrency and CBMC's thread support does not apply to tokio tasks",
  "C14": "quantifies over tokio task parallelism, cache timing, cargo feature matrix and process restarts; none is expressible as a bounded symbolic query over this code",
  "C16": "TimedCache is DashMap + tokio::sync::RwLock + Instant: each is individually unsupported by Kani (ICE / unsupported clock_gettime) and hash containers do not terminate under CBMC",
@@ -14,6 +13,8 @@ NA = {
  "C20": "tombstone_value_states and everything it could affect is async storage code; the verifier-side tombstone clauses are decided under C07",
 }
 TEXT = {
+ "C10": ("Symbolic execution of the rustc MIR of the commit step of a publish (the async StorageManager::commit_transaction, walked as a coroutine with the transaction log, the object cache and the database as event sources) and of the transaction log's begin / commit / rollback: on every path the log is drained first (no transaction left open), a commit whose database write fails as a whole leaves nothing of itself in the object cache and returns the error, and exactly the logged records are written. Kernel-level claim for the 'commit write failing as a whole' clause of the property; the defect F-C10 (fixed) - a failed commit stayed in the cache, so the same instance reported the new epoch - was found by it.",
+         "own MIR path walker (vk/mirsmt/corowalk.py, commitw.py, txn.py) + z3; callees opaque; counterexamples confirmed by native_commitfail (real Directory over a database that refuses the commit write, with and without cache); read failures and Directory::publish's rollback paths not covered"),
  "C13": ("Two solver-decided facts about the real code. (1) Bounded model checking (Kani/CBMC over the compiled akd crate) of the single node-selection function every reader uses: for ALL stored records and ALL target epochs the selected node is never newer than the target (or NotFound) - the kernel whose defect (F-C13, fixed) let a lagging instance return a root hash labelled with the wrong epoch. (2) Data-abstracted model checking of the request coroutines: the control-flow graphs of all async bodies reachable from get_epoch_hash / lookup / batch_lookup / key_history / audit are extracted from the rustc MIR of /repo and z3's fixedpoint engine decides that no path reads the epoch record twice (the defect F-C13b, fixed, was such a path: a history answer stitched from two epochs). Interleavings themselves are outside the claim.",
          'Kani 0.68 / CBMC 6.11 (cadical); z3 fixedpoint (Datalog) over MIR CFGs, every branch nondeterministic (over-approximation; counterexamples confirmed by the native schedule search native_stitch); poller, cache flush timing and concurrent publishes as such not covered'),
  "C11": ("Bounded model checking of the two kernels that make a partially written commit invisible: the real reader selection composed with a restatement of the writer's record shift (all records, all contents), and the commit ordering priority (epoch record last).",
@@ -44,10 +45,10 @@ for pid in sorted(registry.PROPERTIES):
         "thorough_cmd": "./check %s thorough" % pid,
         "evidence_file": "/verif/evidence/%s.json" % pid,
         "replay_cmd_template": "./check --replay {path}",
-        "engine": {"C08": "mir-smt", "C07": "kani + mir-smt", "C11": "kani + mir-smt", "C13": "kani + mir-smt", "C15": "kani + mir-smt"}.get(pid, "kani"),
+        "engine": {"C08": "mir-smt", "C10": "mir-smt", "C07": "kani + mir-smt", "C11": "kani + mir-smt", "C13": "kani + mir-smt", "C15": "kani + mir-smt"}.get(pid, "kani"),
         "level_claimed": {"category": "model_checking", "text": t, "design_ref": "DESIGN.md section 4 (%s)" % pid},
         "level_note": note,
-        "technique": ("bounded model checking of the compiled Rust code with Kani (CBMC + SAT), symbolic inputs via kani::any(), unwinding assertions on, reachability witnesses via kani::cover" if pid != "C08" else "bounded symbolic execution of rustc MIR into SMT (z3, cross-checked with cvc5)")
+        "technique": ("bounded model checking of the compiled Rust code with Kani (CBMC + SAT), symbolic inputs via kani::any(), unwinding assertions on, reachability witnesses via kani::cover" if pid not in ("C08", "C10") else ("bounded symbolic execution of rustc MIR into SMT (z3, cross-checked with cvc5)" if pid == "C08" else "symbolic execution of rustc MIR (own path walker over coroutine bodies, callees as events) with z3 deciding the path queries; counterexamples confirmed by a native battery against the real code"))
                      + ("; plus symbolic execution of the rustc MIR of the function bodies Kani cannot reach (own walker, z3), counterexamples confirmed by native batteries against the real code" if pid in ("C07", "C11", "C13", "C15") else ""),
     })
 m = {
